@@ -80,7 +80,7 @@ registry! {
     c09_group_commit_3, "C09", thorough, 8, plain, 1800 => c09::group_commit(3, true); // 3 appends + sync, symbolic threshold and faults
     c09_group_commit_3_nofault, "C09", thorough, 8, plain, 1800 => c09::group_commit(3, false); // 3 appends + sync, symbolic threshold, no faults
     c06_twin, "C06", quick, 6, plain, 300 => c06::twin();
-    c06_pair_set_set_pre0, "C06", experimental, 6, plain, 1500 => c06::pair(0, 0, 0); // A: SET, B: SET on one key, pre-state absent; symbolic clocks and bytes; deltas cross-delivered once
+    c06_pair_set_set_pre0, "C06", thorough, 6, plain, 2400 => c06::pair(0, 0, 0); // A: SET, B: SET on one key, pre-state absent; symbolic clocks and bytes; deltas cross-delivered once
     c06_pair_set_set_pre1, "C06", experimental, 6, plain, 1500 => c06::pair(0, 0, 1); // A: SET, B: SET on one key, pre-state common LWW value; symbolic clocks and bytes; deltas cross-delivered once
     c06_pair_set_set_pre2, "C06", experimental, 6, plain, 1500 => c06::pair(0, 0, 2); // A: SET, B: SET on one key, pre-state common hash {f}; symbolic clocks and bytes; deltas cross-delivered once
     c06_pair_set_del_pre0, "C06", quick, 6, plain, 1500 => c06::pair(0, 1, 0); // A: SET, B: DEL on one key, pre-state absent; symbolic clocks and bytes; deltas cross-delivered once
@@ -101,10 +101,10 @@ registry! {
     c06_pair_del_hdel_pre2, "C06", experimental, 6, plain, 1500 => c06::pair(1, 3, 2); // A: DEL, B: HDEL on one key, pre-state common hash {f}; symbolic clocks and bytes; deltas cross-delivered once
     c06_pair_hset_hset_pre0, "C06", experimental, 6, plain, 1500 => c06::pair(2, 2, 0); // A: HSET, B: HSET on one key, pre-state absent; symbolic clocks and bytes; deltas cross-delivered once
     c06_pair_hset_hset_pre1, "C06", experimental, 6, plain, 1500 => c06::pair(2, 2, 1); // A: HSET, B: HSET on one key, pre-state common LWW value; symbolic clocks and bytes; deltas cross-delivered once
-    c06_pair_hset_hset_pre2, "C06", experimental, 6, plain, 1500 => c06::pair(2, 2, 2); // A: HSET, B: HSET on one key, pre-state common hash {f}; symbolic clocks and bytes; deltas cross-delivered once
+    c06_pair_hset_hset_pre2, "C06", thorough, 6, plain, 2400 => c06::pair(2, 2, 2); // A: HSET, B: HSET on one key, pre-state common hash {f}; symbolic clocks and bytes; deltas cross-delivered once
     c06_pair_hset_hdel_pre0, "C06", experimental, 6, plain, 1500 => c06::pair(2, 3, 0); // A: HSET, B: HDEL on one key, pre-state absent; symbolic clocks and bytes; deltas cross-delivered once
     c06_pair_hset_hdel_pre1, "C06", experimental, 6, plain, 1500 => c06::pair(2, 3, 1); // A: HSET, B: HDEL on one key, pre-state common LWW value; symbolic clocks and bytes; deltas cross-delivered once
-    c06_pair_hset_hdel_pre2, "C06", experimental, 6, plain, 1500 => c06::pair(2, 3, 2); // A: HSET, B: HDEL on one key, pre-state common hash {f}; symbolic clocks and bytes; deltas cross-delivered once
+    c06_pair_hset_hdel_pre2, "C06", thorough, 6, plain, 2400 => c06::pair(2, 3, 2); // A: HSET, B: HDEL on one key, pre-state common hash {f}; symbolic clocks and bytes; deltas cross-delivered once
     c06_pair_hdel_hdel_pre1, "C06", thorough, 6, plain, 1500 => c06::pair(3, 3, 1); // A: HDEL, B: HDEL on one key, pre-state common LWW value; symbolic clocks and bytes; deltas cross-delivered once
     c06_pair_hdel_hdel_pre2, "C06", experimental, 6, plain, 1500 => c06::pair(3, 3, 2); // A: HDEL, B: HDEL on one key, pre-state common hash {f}; symbolic clocks and bytes; deltas cross-delivered once
     c06_dup_reorder, "C06", experimental, 6, plain, 1500 => c06::dup_reorder(); // SET/SET with each delta delivered twice
@@ -200,11 +200,11 @@ registry! {
     c01_list_trim_3, "C01", experimental, 6, plain, 1800 => c01::list_trim(3); // LTRIM kernel, list of 3, start/stop = any isize pair
     c01_list_set_3, "C01", thorough, 6, plain, 1800 => c01::list_set(3); // LSET kernel, list of 3, index = any isize
     c01_getrange_3, "C01", thorough, 6, plain, 1800 => c01::getrange(3); // GETRANGE on a 3-byte string, start/end = any isize pair
-    c01_set_px, "C01", experimental, 6, plain, 1200 => c01::set_px_then_observe(); // SET PX: px = any i64, now, dt < 2^40; then GET/TTL/PTTL
-    c01_set_ex, "C01", experimental, 6, plain, 1500 => c01::set_ex_then_observe(); // SET EX: s = any i64
-    c01_expire_opts, "C01", experimental, 6, plain, 1500 => c01::expire_options(1000); // EXPIRE none|NX|XX|GT|LT, seconds = any i64, optional existing deadline
+    c01_set_px, "C01", thorough, 6, plain, 2400 => c01::set_px_then_observe(); // SET PX: px = any i64, now, dt < 2^40; then GET/TTL/PTTL
+    c01_set_ex, "C01", thorough, 6, plain, 3000 => c01::set_ex_then_observe(); // SET EX: s = any i64
+    c01_expire_opts, "C01", thorough, 6, plain, 2400 => c01::expire_options(1000); // EXPIRE none|NX|XX|GT|LT, seconds = any i64, optional existing deadline
     c01_pexpire_opts, "C01", experimental, 6, plain, 1500 => c01::expire_options(1); // PEXPIRE none|NX|XX|GT|LT, ms = any i64
-    c01_active_eviction, "C01", experimental, 6, plain, 900 => c01::active_eviction(); // set_time(t) vs deadline d, all t,d
+    c01_active_eviction, "C01", thorough, 6, plain, 2400 => c01::active_eviction(); // set_time(t) vs deadline d, all t,d
     c01_empty_lpop, "C01", quick, 6, plain, 1200 => c01::empty_collection_removed(0); // LPOP of the last / not the last element
     c01_empty_rpop, "C01", thorough, 6, plain, 1200 => c01::empty_collection_removed(1); // RPOP of the last / not the last element
     c01_empty_ltrim, "C01", thorough, 6, plain, 1200 => c01::empty_collection_removed(2); // LTRIM of the last / not the last element
@@ -346,15 +346,15 @@ registry! {
     c08_apply_clock, "C08", quick, 6, plain, 900 => c08::apply_advances_clock(); // apply_remote_delta of any LWW delta (any stamp, any source replica incl. this node) on an arbitrary clock
     c06_observers_hset_hdel_causal_preg, "C06", experimental, 6, plain, 2400 => c06::observers(2, 3, true, true); // A: HSET, B: HDEL after seeing A; observers holding hash {g} apply both deltas in both orders
     c06_observers_hset_hdel_causal, "C06", experimental, 6, plain, 2400 => c06::observers(2, 3, true, false); // A: HSET, B: HDEL after seeing A; observers without the key apply both deltas in both orders
-    c06_observers_set_del_causal, "C06", experimental, 6, plain, 2400 => c06::observers(0, 1, true, false); // A: SET, B: DEL after seeing A; observers without the key apply both deltas in both orders
-    c06_observers_set_set, "C06", experimental, 6, plain, 2400 => c06::observers(0, 0, false, false); // A: SET, B: SET; observers without the key apply both deltas in both orders
+    c06_observers_set_del_causal, "C06", thorough, 6, plain, 2400 => c06::observers(0, 1, true, false); // A: SET, B: DEL after seeing A; observers without the key apply both deltas in both orders
+    c06_observers_set_set, "C06", thorough, 6, plain, 2400 => c06::observers(0, 0, false, false); // A: SET, B: SET; observers without the key apply both deltas in both orders
     c06_observers_hset_hset_preg, "C06", experimental, 6, plain, 2400 => c06::observers(2, 2, false, true); // A: HSET, B: HSET; observers holding hash {g} apply both deltas in both orders
     c06_observers_set_hset, "C06", experimental, 6, plain, 2400 => c06::observers(0, 2, false, false); // A: SET, B: HSET; observers without the key apply both deltas in both orders
     c06_observers_hset_hdel_preg, "C06", experimental, 6, plain, 2400 => c06::observers(2, 3, false, true); // A: HSET, B: HDEL; observers holding hash {g} apply both deltas in both orders
     c06_observers_set_hdel_causal_preg, "C06", experimental, 6, plain, 2400 => c06::observers(0, 3, true, true); // A: SET, B: HDEL after seeing A; observers holding hash {g} apply both deltas in both orders
     c18_bucket_sound, "C18", quick, 40, hasher, 900 => c18::bucket_sound(); // two buckets of 2 arbitrary digests each
     c10_entries_tail_empty, "C10", experimental, 24, plain, 900 => c11::entries_after(1, 0); // WAL image of 2 entries, the last with an empty payload (header only)
-    c10_entries_both_empty, "C10", thorough, 24, plain, 900 => c11::entries_after(0, 0); // WAL image of 2 header-only entries
+    c10_entries_both_empty, "C10", quick, 24, plain, 900 => c11::entries_after(0, 0); // WAL image of 2 header-only entries
     c10_entries_2_3, "C10", experimental, 24, plain, 1200 => c11::entries_after(2, 3); // WAL image of 2 entries with 2- and 3-byte payloads
     c01_dispatch_incrby, "C01", experimental, 24, plain, 2400 => c01::dispatch_incrdecr(0); // through execute(): INCRBY k n on a stored one-digit integer, n = any i64
     c01_dispatch_decrby, "C01", experimental, 24, plain, 2400 => c01::dispatch_incrdecr(1); // through execute(): DECRBY k n on a stored one-digit integer, n = any i64
@@ -401,11 +401,11 @@ registry! {
     c14_seg_record_40_44, "C14", experimental, 160, plain, 3000 => c14::segment_damage(40, 44); // record-area bytes 40..44: one byte XOR any non-zero mask
     c14_seg_record_44_48, "C14", experimental, 160, plain, 3000 => c14::segment_damage(44, 48); // record-area bytes 44..48: one byte XOR any non-zero mask
     c14_seg_record_115_119, "C14", experimental, 160, plain, 3000 => c14::segment_damage(115, 119); // record-area bytes 115..119: one byte XOR any non-zero mask
-    c19_ring_l0_lookup_rf1, "C19", experimental, 10, ring, 900 => c19::ring(0, 0, 1); // layout 0 (3 members x 2 virtual nodes, sorted positions concrete), key position = any u64, rf = 1: lookup
+    c19_ring_l0_lookup_rf1, "C19", quick, 10, ring, 600 => c19::ring(0, 0, 1); // layout 0 (3 members x 2 virtual nodes, sorted positions concrete), key position = any u64, rf = 1: lookup
     c19_ring_l0_lookup_rf2, "C19", experimental, 10, ring, 900 => c19::ring(0, 0, 2); // layout 0 (3 members x 2 virtual nodes, sorted positions concrete), key position = any u64, rf = 2: lookup
     c19_ring_l0_lookup_rf3, "C19", experimental, 10, ring, 900 => c19::ring(0, 0, 3); // layout 0 (3 members x 2 virtual nodes, sorted positions concrete), key position = any u64, rf = 3: lookup
     c19_ring_l0_lookup_rf4, "C19", experimental, 10, ring, 900 => c19::ring(0, 0, 4); // layout 0 (3 members x 2 virtual nodes, sorted positions concrete), key position = any u64, rf = 4: lookup
-    c19_ring_l0_gossip_rf1, "C19", experimental, 10, ring, 900 => c19::ring(0, 1, 1); // layout 0 (3 members x 2 virtual nodes, sorted positions concrete), key position = any u64, rf = 1: gossip
+    c19_ring_l0_gossip_rf1, "C19", quick, 10, ring, 600 => c19::ring(0, 1, 1); // layout 0 (3 members x 2 virtual nodes, sorted positions concrete), key position = any u64, rf = 1: gossip
     c19_ring_l0_gossip_rf2, "C19", experimental, 10, ring, 900 => c19::ring(0, 1, 2); // layout 0 (3 members x 2 virtual nodes, sorted positions concrete), key position = any u64, rf = 2: gossip
     c19_ring_l0_gossip_rf3, "C19", experimental, 10, ring, 900 => c19::ring(0, 1, 3); // layout 0 (3 members x 2 virtual nodes, sorted positions concrete), key position = any u64, rf = 3: gossip
     c19_ring_l0_gossip_rf4, "C19", experimental, 10, ring, 900 => c19::ring(0, 1, 4); // layout 0 (3 members x 2 virtual nodes, sorted positions concrete), key position = any u64, rf = 4: gossip
@@ -413,11 +413,11 @@ registry! {
     c19_ring_l0_removal_rf2, "C19", experimental, 10, ring, 900 => c19::ring(0, 2, 2); // layout 0 (3 members x 2 virtual nodes, sorted positions concrete), key position = any u64, rf = 2: removal
     c19_ring_l0_removal_rf3, "C19", experimental, 10, ring, 900 => c19::ring(0, 2, 3); // layout 0 (3 members x 2 virtual nodes, sorted positions concrete), key position = any u64, rf = 3: removal
     c19_ring_l0_removal_rf4, "C19", experimental, 10, ring, 900 => c19::ring(0, 2, 4); // layout 0 (3 members x 2 virtual nodes, sorted positions concrete), key position = any u64, rf = 4: removal
-    c19_ring_l1_lookup_rf1, "C19", experimental, 10, ring, 900 => c19::ring(1, 0, 1); // layout 1 (3 members x 2 virtual nodes, sorted positions concrete), key position = any u64, rf = 1: lookup
+    c19_ring_l1_lookup_rf1, "C19", quick, 10, ring, 600 => c19::ring(1, 0, 1); // layout 1 (3 members x 2 virtual nodes, sorted positions concrete), key position = any u64, rf = 1: lookup
     c19_ring_l1_lookup_rf2, "C19", experimental, 10, ring, 900 => c19::ring(1, 0, 2); // layout 1 (3 members x 2 virtual nodes, sorted positions concrete), key position = any u64, rf = 2: lookup
     c19_ring_l1_lookup_rf3, "C19", experimental, 10, ring, 900 => c19::ring(1, 0, 3); // layout 1 (3 members x 2 virtual nodes, sorted positions concrete), key position = any u64, rf = 3: lookup
     c19_ring_l1_lookup_rf4, "C19", experimental, 10, ring, 900 => c19::ring(1, 0, 4); // layout 1 (3 members x 2 virtual nodes, sorted positions concrete), key position = any u64, rf = 4: lookup
-    c19_ring_l1_gossip_rf1, "C19", experimental, 10, ring, 900 => c19::ring(1, 1, 1); // layout 1 (3 members x 2 virtual nodes, sorted positions concrete), key position = any u64, rf = 1: gossip
+    c19_ring_l1_gossip_rf1, "C19", quick, 10, ring, 600 => c19::ring(1, 1, 1); // layout 1 (3 members x 2 virtual nodes, sorted positions concrete), key position = any u64, rf = 1: gossip
     c19_ring_l1_gossip_rf2, "C19", experimental, 10, ring, 900 => c19::ring(1, 1, 2); // layout 1 (3 members x 2 virtual nodes, sorted positions concrete), key position = any u64, rf = 2: gossip
     c19_ring_l1_gossip_rf3, "C19", experimental, 10, ring, 900 => c19::ring(1, 1, 3); // layout 1 (3 members x 2 virtual nodes, sorted positions concrete), key position = any u64, rf = 3: gossip
     c19_ring_l1_gossip_rf4, "C19", experimental, 10, ring, 900 => c19::ring(1, 1, 4); // layout 1 (3 members x 2 virtual nodes, sorted positions concrete), key position = any u64, rf = 4: gossip
@@ -425,11 +425,11 @@ registry! {
     c19_ring_l1_removal_rf2, "C19", experimental, 10, ring, 900 => c19::ring(1, 2, 2); // layout 1 (3 members x 2 virtual nodes, sorted positions concrete), key position = any u64, rf = 2: removal
     c19_ring_l1_removal_rf3, "C19", experimental, 10, ring, 900 => c19::ring(1, 2, 3); // layout 1 (3 members x 2 virtual nodes, sorted positions concrete), key position = any u64, rf = 3: removal
     c19_ring_l1_removal_rf4, "C19", experimental, 10, ring, 900 => c19::ring(1, 2, 4); // layout 1 (3 members x 2 virtual nodes, sorted positions concrete), key position = any u64, rf = 4: removal
-    c19_ring_l2_lookup_rf1, "C19", experimental, 10, ring, 900 => c19::ring(2, 0, 1); // layout 2 (3 members x 2 virtual nodes, sorted positions concrete), key position = any u64, rf = 1: lookup
+    c19_ring_l2_lookup_rf1, "C19", quick, 10, ring, 600 => c19::ring(2, 0, 1); // layout 2 (3 members x 2 virtual nodes, sorted positions concrete), key position = any u64, rf = 1: lookup
     c19_ring_l2_lookup_rf2, "C19", experimental, 10, ring, 900 => c19::ring(2, 0, 2); // layout 2 (3 members x 2 virtual nodes, sorted positions concrete), key position = any u64, rf = 2: lookup
     c19_ring_l2_lookup_rf3, "C19", experimental, 10, ring, 900 => c19::ring(2, 0, 3); // layout 2 (3 members x 2 virtual nodes, sorted positions concrete), key position = any u64, rf = 3: lookup
     c19_ring_l2_lookup_rf4, "C19", experimental, 10, ring, 900 => c19::ring(2, 0, 4); // layout 2 (3 members x 2 virtual nodes, sorted positions concrete), key position = any u64, rf = 4: lookup
-    c19_ring_l2_gossip_rf1, "C19", experimental, 10, ring, 900 => c19::ring(2, 1, 1); // layout 2 (3 members x 2 virtual nodes, sorted positions concrete), key position = any u64, rf = 1: gossip
+    c19_ring_l2_gossip_rf1, "C19", quick, 10, ring, 600 => c19::ring(2, 1, 1); // layout 2 (3 members x 2 virtual nodes, sorted positions concrete), key position = any u64, rf = 1: gossip
     c19_ring_l2_gossip_rf2, "C19", experimental, 10, ring, 900 => c19::ring(2, 1, 2); // layout 2 (3 members x 2 virtual nodes, sorted positions concrete), key position = any u64, rf = 2: gossip
     c19_ring_l2_gossip_rf3, "C19", experimental, 10, ring, 900 => c19::ring(2, 1, 3); // layout 2 (3 members x 2 virtual nodes, sorted positions concrete), key position = any u64, rf = 3: gossip
     c19_ring_l2_gossip_rf4, "C19", experimental, 10, ring, 900 => c19::ring(2, 1, 4); // layout 2 (3 members x 2 virtual nodes, sorted positions concrete), key position = any u64, rf = 4: gossip
@@ -578,4 +578,7 @@ registry! {
     c05_twin, "C05", experimental, 8, small, 600 => c05::twin();
     c05_exec_int_incrby_get, "C05", experimental, 8, small, 1500 => c05::exec_equals_sequential(1, 1, 4); // k = one digit; MULTI INCRBY k n; GET k; EXEC vs sequential, n = any i64
     c05_edges, "C05", experimental, 8, small, 1500 => c05::edges(); // nested MULTI, EXEC/DISCARD without MULTI, WATCH inside MULTI, UNWATCH
+    c16_arm_get, "C16", thorough, 12, ascii, 1800 => c16::arm(b"GET", 0, 2, 2, c16arm!(GET)); // GET arm of both parsers (S7 extraction), arities 0..=2, arguments of 2 symbolic ASCII bytes
+    c04_split_array_5_n0, "C04", quick, 12, alloc, 300 => c15::array(b"5", Some(5), 0, false); // a 5-element command whose '*5' header arrives alone in a read: both decoders must ask for more bytes (codec) / not accept (parser)
+    c04_split_array_9_n1, "C04", thorough, 12, alloc, 300 => c15::array(b"9", Some(9), 1, false); // '*9' header + one complete element in the first read
 }
